@@ -13,7 +13,7 @@ pub fn run(out: &mut Out, seed: u64, tier: &str) {
     let mut rng = Rng::new(seed ^ 0x0707);
     let n_mols = if tier == "thorough" { 120 } else { 24 };
     let lib = library();
-    let (mut n_hist, mut n_req, mut n_ng, mut n_opt) = (0usize, 0usize, 0usize, 0usize);
+    let (mut n_hist, mut n_req, mut n_ng, mut n_opt, mut n_sing) = (0usize, 0usize, 0usize, 0usize, 0usize);
     for r in 0..n_mols {
         let m = if r < 8 { lib[r].clone() } else { random_mol(&mut rng) };
         if m.min_distance() < 0.5 || m.n() > 10 || m.n() < 1 { continue; }
@@ -28,7 +28,15 @@ pub fn run(out: &mut Out, seed: u64, tier: &str) {
             let len = 4 + rng.below(if tier == "thorough" { 36 } else { 12 });
             let before: Vec<u64> = mol.coordinates.iter().flat_map(|p| [p.x.to_bits(), p.y.to_bits(), p.z.to_bits()]).collect();
             for _ in 0..len {
-                let g = distort(&m, rng.range(0.0, 0.3), &mut rng);
+                let mut g = distort(&m, rng.range(0.0, 0.3), &mut rng);
+                // now and then a singular geometry (all atoms at the origin as from_atomic_symbols leaves them, two atoms
+                // coincident, everything on a line): its non-finite answers must not leak into later requests
+                match rng.below(12) {
+                    0 => { for p in g.xs.iter_mut() { *p = [0.0, 0.0, 0.0]; } n_sing += 1; }
+                    1 => { if g.xs.len() > 1 { g.xs[1] = g.xs[0]; n_sing += 1; } }
+                    2 => { for p in g.xs.iter_mut() { p[1] = 0.0; p[2] = 0.0; } n_sing += 1; }
+                    _ => {}
+                }
                 let x = g.points();
                 match rng.below(10) {
                     0..=3 => { rec.energy(&x); }
@@ -81,5 +89,6 @@ pub fn run(out: &mut Out, seed: u64, tier: &str) {
     out.stat("primitive_requests", n_req);
     out.stat("numerical_gradient_calls", n_ng);
     out.stat("optimise_calls", n_opt);
+    out.stat("requests_at_singular_geometries", n_sing);
     out.sample("history on water/UFF: E,G,G,numerical-gradient,optimise(20),E,... each answer vs a fresh object");
 }
